@@ -19,10 +19,37 @@ use lightmotif::seq::EncodedSequence;
 const DNA: &[u8] = b"ACTGN";
 const PROTEIN: &[u8] = b"ACDEFGHIKLMNPQRSTVWYX";
 
+/// the other ways of looking at / building an encoded sequence must agree with `iter()`:
+/// `Index`, `IntoIterator for &EncodedSequence`, `len`/`is_empty`, `AsRef<[Symbol]>`, `PartialEq`,
+/// `FromIterator`, `From<Vec>`, `Default`
+fn views_agree<A: Alphabet>(e: &EncodedSequence<A>) -> bool {
+    let v: Vec<A::Symbol> = e.iter().cloned().collect();
+    let by_index: Vec<usize> = (0..e.len()).map(|i| e[i].as_index()).collect();
+    let by_into: Vec<usize> = e.into_iter().map(|x| x.as_index()).collect();
+    let slice: &[A::Symbol] = e.as_ref();
+    let rebuilt: EncodedSequence<A> = v.iter().cloned().collect();
+    let from_vec: EncodedSequence<A> = EncodedSequence::from(v.clone());
+    let want: Vec<usize> = v.iter().map(|x| x.as_index()).collect();
+    by_index == want
+        && by_into == want
+        && slice.len() == want.len()
+        && e.is_empty() == want.is_empty()
+        && *e == rebuilt
+        && rebuilt == from_vec
+        && (EncodedSequence::<A>::default().len() == 0)
+        && (want.is_empty() || !(*e == EncodedSequence::<A>::default()))
+        && e.clone() == *e
+        && rebuilt.to_string() == e.to_string()
+}
+
 fn run_encoder<A: Alphabet, P: Encode<A>>(pli: &P, api: &str, s: &[u8]) -> Result<(Vec<usize>, Vec<u8>), InvalidSymbol> {
     match api {
         "encode" => {
             let e: EncodedSequence<A> = pli.encode(s)?;
+            if !views_agree(&e) {
+                // reported as a wrong result: the index list is poisoned
+                return Ok((vec![usize::MAX], e.to_string().into_bytes()));
+            }
             Ok((e.iter().map(|x| x.as_index()).collect(), e.to_string().into_bytes()))
         }
         "raw" => {
